@@ -41,7 +41,7 @@ _RE_STATES = re.compile(r"(\d+) states generated, (\d+) distinct states found, (
 _RE_DEPTH = re.compile(r"The depth of the complete state graph search is (\d+)")
 _RE_INV = re.compile(r"Error: Invariant (\S+) is violated")
 _RE_PROP = re.compile(r"Error: (?:Action property|Temporal properties?) ?(\S*)")
-_RE_COV = re.compile(r"^<(\w+) line (\d+), col \d+ to line \d+, col \d+ of module (\w+)>: (\d+):(\d+)")
+_RE_COV = re.compile(r"^<(\w+) line (\d+), col \d+ to line \d+, col \d+ of module (\w+)(?: \([\d ]+\))?>: (\d+):(\d+)")
 _RE_COV_INIT = re.compile(r"^<(\w+) line (\d+), col \d+ to line \d+, col \d+ of module (\w+)>: (\d+)$")
 
 
@@ -112,7 +112,9 @@ def run_model(
     for line in out.splitlines():
         m = _RE_COV.match(line)
         if m:
-            st["actions"][m.group(1)] = {"distinct": int(m.group(4)), "taken": int(m.group(5))}
+            a = st["actions"].setdefault(m.group(1), {"distinct": 0, "taken": 0})
+            a["distinct"] += int(m.group(4))
+            a["taken"] += int(m.group(5))
     finished = "Model checking completed. No error has been found." in out or (
         simulate is not None and st["violated"] is None and p.returncode in (0,)
     )
